@@ -39,3 +39,8 @@ Theorem coll_limit_respected : forall Lbx Lby Ltx Lty ox oy sx sy, Lbx <= Ltx ->
 Proof.
   intros Lbx Lby Ltx Lty ox oy sx sy Hwx Hwy Hin. split; [|split; [|split]]; intros q Hq; [apply axis0 | apply axis1 | apply axis2 | apply axis3]; assumption.
 Qed.
+
+(* the kerning path: whatever kern is needed, the clamp of KernCollider::resolve keeps offset-of-earlier-passes + kern inside the x range of
+   the limit rectangle KernCollider::initSlot was given *)
+Lemma kern_limit_respected Lbx Ltx ox needed : Lbx <= Ltx -> Lbx <= ox + kern_result Lbx Ltx ox needed <= Ltx.
+Proof. unfold kern_result. lia. Qed.
